@@ -199,10 +199,12 @@ def kahanInc (A : Arith) (inc sum c : Cls) : Cls × Cls :=
   else if vge (vabs sum) (vabs inc) then (t, vadd A c (vadd A (vsub A sum t) inc))
   else (t, vadd A c (vadd A (vsub A inc t) sum))
 
+deriving instance DecidableEq for Prom.F64.Cls
+
 structure Sample where
   labels : Labels
   v : Cls
-  deriving Inhabited
+  deriving Inhabited, DecidableEq
 
 /-! ### aggregation over one group (members in input order; `first` initialises the group) -/
 
